@@ -80,7 +80,11 @@ def run(tier, seed):
         dd = C.scratch_dir('pi2c01bin.')
         cand = [(ln, lab) for ln, lab, ro in zip(lines, labels, r)
                 if ln.startswith('V - ') and ln.split()[2] != '-' and not (ro.startswith('ACCEPT') or ro.startswith('OK'))]
-        step = max(1, len(cand) // (120 if quick else 1500))
+        try:
+            unknown_main = 'UNRECOGNISED' in open(os.path.join(C.COQ, 'Gen', 'Exec.v')).read(600)
+        except OSError:
+            unknown_main = True
+        step = max(1, len(cand) // ((120 if quick else 1500) * (4 if unknown_main else 1)))
         ran = 0
         for ln, lab in cand[::step]:
             f = ln.split()
